@@ -4,7 +4,8 @@
    cap_sasl.go, the sasl part of handleCAP, registerBuiltins' routing, execLoop's ERROR
    exit, the credential writes of internalConnect / Cmd.Oper and the Sensitive/Echo gates
    of the loggers; Spec/SaslSpec.v is the property's own reading of "chunks". *)
-Require Import Bytes Utf8 Base64 Sasl SaslSpec Base64Lemmas SaslProofs SaslFailClosed SaslLogProofs SaslStateful.
+Require Import Bytes Utf8 Base64 CapLib StsState Cap CapSpec CapProofs.
+Require Import Sasl SaslSpec Base64Lemmas SaslProofs SaslFailClosed SaslLogProofs SaslStateful SaslCapLines.
 
 (* ---- chunking ------------------------------------------------------------------ *)
 
@@ -84,7 +85,7 @@ Print Assumptions C09_plain_delivered.
    response), c any configuration using it with tracking on.  Histories range over the
    alphabet AUTHENTICATE, 900-908 (in_alphabet); the theorems hold from every negotiation
    state ns whose Connect has not returned, in particular from the state reached when
-   CAP ACK started the authentication (C09_ack_starts_authentication). *)
+   CAP ACK started the authentication (C09_ack_starts_authentication below). *)
 
 (* what one event elicits, exactly as the code behaves (Spec/SaslSpec.v step_spec):
    900/901/907 nothing; 903 CAP END; 902/904/905/906/908 the ERROR that ends Connect;
@@ -134,13 +135,6 @@ Theorem C09_success : forall m c, cfg_sasl c = Some m -> cfg_tracking c = true -
   feed c (mkConn ns None) e = Ok (mkConn ns None, [Write cap_end]).
 Proof. exact success_ends_negotiation. Qed.
 Print Assumptions C09_success.
-
-Theorem C09_ack_starts_authentication : forall m c, cfg_sasl c = Some m -> cfg_tracking c = true ->
-  forall ns pfx target e_echo, e_echo = false ->
-  feed c (mkConn ns None) (mkEv pfx c_CAP [target; c_ACK; c_sasl] false e_echo) =
-    Ok (mkConn (mkNs false true) None, [Write (plain_ev c_AUTHENTICATE [mech_method m])]).
-Proof. exact ack_starts_authentication. Qed.
-Print Assumptions C09_ack_starts_authentication.
 
 (* no slice in the chunk loop is ever out of range: no history, in or outside the alphabet,
    with or without a mechanism, makes the model panic *)
@@ -249,3 +243,118 @@ Theorem C09_stateful_session_log_ni : forall strip_raw pretty_rest c1 c2 s1 s2 c
   session_log_stateful strip_raw pretty_rest c2 cn s2.
 Proof. exact session_log_stateful_ni. Qed.
 Print Assumptions C09_stateful_session_log_ni.
+
+(* ---- CAP lines while the exchange is running -------------------------------------------
+   The server may send CAP lines between AUTHENTICATE <mech> and 903 (capabilities
+   acknowledged on separate lines, cap-notify NEW/DEL, a repeated LS, a NAK).  handleCAP is
+   Model/Cap.v handle_cap with STS disabled; is_nak/is_del/is_final_ls/is_ack, cap_tokens,
+   cap_token_name are Spec/CapSpec.v's reply patterns, en_after_ack ns ps is enabledCap after
+   the tokens of an ACK line (Proofs/CapProofs.v), requestable k: k is a built-in capability
+   or sasl, sasl_enabled ns: sasl is in enabledCap. *)
+
+(* CAP ACK starts (or re-starts) the authentication: an ACK that acknowledges sasl, or
+   arrives while sasl is acknowledged, and does not take it away with "-sasl", is answered
+   by AUTHENTICATE <method> and nothing else -- in particular not by CAP END *)
+Theorem C09_ack_starts_authentication : forall c m ns e,
+  cfg_sasl c = Some m -> cfg_tracking c = true -> cap_event e ->
+  is_ack (ev_params e) = true -> ~ In (45 :: s_sasl) (cap_tokens (ev_params e)) ->
+  sasl_enabled ns \/ In s_sasl (cap_tokens (ev_params e)) ->
+  feed c (mkConn ns None) e =
+    Ok (mkConn (mkSt [] (en_after_ack ns (ev_params e)) (st_sts ns)) None,
+        [Sasl.Write (plain_ev c_AUTHENTICATE [mech_method m])]).
+Proof. exact ack_starts_authentication. Qed.
+Print Assumptions C09_ack_starts_authentication.
+
+(* exactly which CAP lines the current code answers with CAP END, in any state: a NAK; a
+   final LS/NEW when tmpCap is empty and the line advertises nothing requestable; an ACK
+   after whose tokens sasl is not acknowledged.  Every other CAP line writes no CAP END. *)
+Theorem C09_cap_end_iff : forall c m ns e, cfg_sasl c = Some m ->
+  (In cap_end (writes_of (snd (Sasl.handle_cap c ns e))) <->
+   is_nak (ev_params e) = true /\ is_del (ev_params e) = false \/
+   (is_final_ls (ev_params e) = true /\ is_nak (ev_params e) = false /\ is_del (ev_params e) = false /\
+    st_tmp ns = [] /\
+    forall k, In k (List.map cap_token_name (cap_tokens (ev_params e))) -> ~ requestable k) \/
+   (is_ack (ev_params e) = true /\ is_del (ev_params e) = false /\
+    amem s_sasl (en_after_ack ns (ev_params e)) = false)).
+Proof. exact cap_end_iff. Qed.
+Print Assumptions C09_cap_end_iff.
+
+(* a CAP line other than NAK, a DEL/ACK taking sasl away, or a final LS/NEW advertising
+   nothing requestable (cap_quiet), arriving while sasl is acknowledged: sasl stays
+   acknowledged and no CAP END is written *)
+Theorem C09_cap_quiet_step : forall c m ns e,
+  cfg_sasl c = Some m -> sasl_enabled ns -> cap_quiet (ev_params e) ->
+  sasl_enabled (fst (Sasl.handle_cap c ns e)) /\
+  ~ In cap_end (writes_of (snd (Sasl.handle_cap c ns e))).
+Proof. exact cap_quiet_step. Qed.
+Print Assumptions C09_cap_quiet_step.
+
+(* execLoop on a CAP line: handleCAP's state and writes, Connect goes on *)
+Theorem C09_cap_line_step : forall c ns e, cfg_tracking c = true -> cap_event e ->
+  feed c (mkConn ns None) e =
+    Ok (mkConn (fst (Sasl.handle_cap c ns e)) None, snd (Sasl.handle_cap c ns e)).
+Proof. exact feed_cap. Qed.
+Print Assumptions C09_cap_line_step.
+
+(* CAP END only after 903, over histories that mix AUTHENTICATE, 900-908 and quiet CAP
+   lines (in_alphabet_cap), from any state in which sasl is acknowledged: nothing written
+   before the first 903 is CAP END, and sasl is still acknowledged *)
+Theorem C09_fail_closed_no_cap_end_cap : forall c m, cfg_sasl c = Some m -> cfg_tracking c = true ->
+  forall h1 h2 cn cn' outs,
+  Forall in_alphabet_cap h1 -> Forall (fun e => ev_cmd e <> n903) h1 -> sasl_enabled (cn_ns cn) ->
+  run c cn (h1 ++ h2) = Ok (cn', outs) ->
+  exists cn1 o1 o2,
+    run c cn h1 = Ok (cn1, o1) /\ run c cn1 h2 = Ok (cn', o2) /\ outs = o1 ++ o2 /\
+    ~ In cap_end (writes_of o1) /\ sasl_enabled (cn_ns cn1).
+Proof. exact no_cap_end_before_success_cap. Qed.
+Print Assumptions C09_fail_closed_no_cap_end_cap.
+
+(* failure numerics and give-ups stay fatal whatever CAP lines (any, NAK included) are
+   interleaved, and nothing is written afterwards *)
+Theorem C09_fail_closed_cap : forall c m, cfg_sasl c = Some m -> cfg_tracking c = true ->
+  forall h1 e h2 ns,
+  Forall in_alphabet_anycap h1 -> Forall (fun x => fatalb m x = false) h1 ->
+  in_alphabet_anycap e -> fatalb m e = true ->
+  exists ns' o1,
+    run c (mkConn ns None) h1 = Ok (mkConn ns' None, o1) /\
+    run c (mkConn ns None) (h1 ++ e :: h2) =
+      Ok (mkConn ns' (Some (fatal_text m e)), o1 ++ [InjectError (fatal_text m e)]).
+Proof. exact fails_closed_cap. Qed.
+Print Assumptions C09_fail_closed_cap.
+
+Theorem C09_error_iff_fatal_cap : forall c m, cfg_sasl c = Some m -> cfg_tracking c = true ->
+  forall h ns cn' outs,
+  Forall in_alphabet_anycap h -> run c (mkConn ns None) h = Ok (cn', outs) ->
+  (cn_returned cn' <> None <-> Exists (fun e => fatalb m e = true) h).
+Proof. exact returned_iff_fatal_cap. Qed.
+Print Assumptions C09_error_iff_fatal_cap.
+
+(* the same for mechanisms that keep state *)
+Theorem C09_stateful_no_cap_end_cap : forall c, cfg_tracking c = true ->
+  forall s1 s2 cn cn' outs,
+  Forall step_in_alphabet_cap s1 -> Forall (fun x => ev_cmd (snd x) <> n903) s1 ->
+  sasl_enabled (cn_ns cn) ->
+  run_stateful c cn (s1 ++ s2) = Ok (cn', outs) ->
+  exists cn1 o1 o2,
+    run_stateful c cn s1 = Ok (cn1, o1) /\ run_stateful c cn1 s2 = Ok (cn', o2) /\ outs = o1 ++ o2 /\
+    ~ In cap_end (writes_of o1) /\ sasl_enabled (cn_ns cn1).
+Proof. exact rsx_no_cap_end_before_success. Qed.
+Print Assumptions C09_stateful_no_cap_end_cap.
+
+Theorem C09_stateful_fail_closed_cap : forall c, cfg_tracking c = true ->
+  forall s1 m e s2 ns,
+  Forall step_in_alphabet_anycap s1 -> Forall (fun x => step_fatalb x = false) s1 ->
+  in_alphabet_anycap e -> fatalb m e = true ->
+  exists ns' o1,
+    run_stateful c (mkConn ns None) s1 = Ok (mkConn ns' None, o1) /\
+    run_stateful c (mkConn ns None) (s1 ++ (m, e) :: s2) =
+      Ok (mkConn ns' (Some (fatal_text m e)), o1 ++ [InjectError (fatal_text m e)]).
+Proof. exact rsx_fails_closed. Qed.
+Print Assumptions C09_stateful_fail_closed_cap.
+
+Theorem C09_stateful_error_iff_fatal_cap : forall c, cfg_tracking c = true ->
+  forall steps ns cn' outs,
+  Forall step_in_alphabet_anycap steps -> run_stateful c (mkConn ns None) steps = Ok (cn', outs) ->
+  (cn_returned cn' <> None <-> Exists (fun x => step_fatalb x = true) steps).
+Proof. exact rsx_returned_iff_fatal. Qed.
+Print Assumptions C09_stateful_error_iff_fatal_cap.
